@@ -99,6 +99,9 @@ type Eng struct {
 	curInstr   ssa.Instruction
 	sendCount  map[string]int
 	ownMods    []modTarget
+	ifaceSeen  map[string]*types.Interface
+	tagTypes   map[string]types.Type
+	implDone   map[string]bool
 }
 
 type retEdge struct {
@@ -129,6 +132,11 @@ func (e *Eng) reset() {
 	e.quantified = false
 	e.sendCount = map[string]int{}
 	e.ownMods = nil
+	e.tagTypes = map[string]types.Type{}
+	e.implDone = map[string]bool{}
+	if e.ifaceSeen == nil {
+		e.ifaceSeen = map[string]*types.Interface{}
+	}
 	e.q.Declare("StrData", arrSort(sRef, arrSort(sI64, sI8)))
 }
 
